@@ -407,3 +407,247 @@ Proof.
   - cbn [rightful]. intros H. specialize (H ltac:(discriminate)). vm_compute in H. discriminate.
   - cbn [rightful]. eexists. vm_compute. repeat split; reflexivity.
 Qed.
+
+(* ------------------------------------------------------------------ *)
+(* debits: what an operation may do to the balance of an ordinary account *)
+
+(* no ordinary account is lowered *)
+Definition ub (s s' : State) : Prop := forall a, bal s (User a) <= bal s' (User a).
+
+Lemma ub_refl s : ub s s.
+Proof. intros a. lia. Qed.
+
+Lemma ub_trans s1 s2 s3 : ub s1 s2 -> ub s2 s3 -> ub s1 s3.
+Proof. intros H1 H2 a. specialize (H1 a). specialize (H2 a). lia. Qed.
+
+Lemma ub_core s s' : core s' = core s -> ub s s'.
+Proof. intros E a. rewrite (core_bal _ _ _ E). lia. Qed.
+
+Lemma ub_bank s s' : bank s' = bank s -> ub s s'.
+Proof. intros E a. unfold bal. rewrite E. lia. Qed.
+
+Lemma user_eqb a u : eqb (User a) (User u) = (a =? u).
+Proof. reflexivity. Qed.
+
+(* a transfer out of an ordinary account lowers that account only, by the amount *)
+Lemma transfer_user_bal u b amt s s1 a :
+  transfer (User u) b amt s = Some s1 ->
+  0 <= amt /\ bal s (User a) - (if a =? u then amt else 0) <= bal s1 (User a).
+Proof.
+  intros E. rewrite (transfer_bal _ _ _ _ _ (User a) E), user_eqb.
+  apply transfer_some in E. destruct E as (H0 & _ & _). split; [exact H0|].
+  destruct (eqb (User a) b); lia.
+Qed.
+
+(* a transfer out of a module account lowers no ordinary account *)
+Lemma ub_transfer_module m b amt s s1 :
+  transfer m b amt s = Some s1 -> (forall u, m <> User u) -> ub s s1.
+Proof.
+  intros E Hm a. rewrite (transfer_bal _ _ _ _ _ (User a) E).
+  apply transfer_some in E. destruct E as (H0 & _ & _).
+  destruct (eqb_spec (User a) m) as [E1|_]; [exfalso; eapply Hm; eauto|].
+  destruct (eqb (User a) b); lia.
+Qed.
+
+Lemma ub_slash cfg s r s1 : slash cfg s r = Ok s1 -> ub s s1.
+Proof.
+  intros H a. apply slash_core_fields in H.
+  destruct H as (k & b & amt & _ & _ & _ & _ & Ebk & _).
+  unfold bal. rewrite Ebk, get0_set. cbn [eqb EqDec_Acct acct_eqb]. lia.
+Qed.
+
+Lemma ub_refund_fee s r cons fee s1 : refund_fee s r cons fee = Some s1 -> ub s s1.
+Proof.
+  intros H. apply refund_fee_inv in H. destruct H as (s0 & Et & ->).
+  eapply ub_trans; [eapply ub_transfer_module; [exact Et|discriminate]|apply ub_core; reflexivity].
+Qed.
+
+Lemma ub_add_earned_fee cfg s r prov fee s1 : add_earned_fee cfg s r prov fee = Ok s1 -> ub s s1.
+Proof.
+  intros H. apply core_add_earned_fee in H. destruct H as (s0 & Et & Ec).
+  eapply ub_trans; [eapply ub_transfer_module; [exact Et|discriminate]|apply ub_core; exact Ec].
+Qed.
+
+(* the amount of base coins a coin argument carries *)
+Definition coin_amt (c : Coins) : Z := match c with CBase a => a | _ => 0 end.
+
+Lemma one_base_coin_amt c a : one_base_coin c = Ok a -> coin_amt c = a /\ 0 < a.
+Proof.
+  destruct c; cbn; try discriminate. destruct (0 <? amt) eqn:E; [|discriminate].
+  intros H; injection H as <-. split; [reflexivity|now apply Z.ltb_lt].
+Qed.
+
+Lemma pay_deposit_bal s k owner amt s1 a :
+  pay_deposit s k owner amt = Ok s1 ->
+  0 <= amt /\ bal s (User a) - (if a =? owner then amt else 0) <= bal s1 (User a).
+Proof.
+  intros H. apply pay_deposit_inv in H. destruct H as (s0 & Et & ->).
+  change (bal (emit (EvDepositIn k owner amt) s0) (User a)) with (bal s0 (User a)).
+  eapply transfer_user_bal; eauto.
+Qed.
+
+(* the optional top-up of h_update / h_enable *)
+Lemma opt_pay_bal s k owner (dep : Coins) amt s1 a :
+  (if coins_empty dep then Ok 0 else one_base_coin dep) = Ok amt ->
+  (if coins_empty dep then Ok s else pay_deposit s k owner amt) = Ok s1 ->
+  amt = coin_amt dep /\ 0 <= amt
+  /\ bal s (User a) - (if a =? owner then amt else 0) <= bal s1 (User a).
+Proof.
+  destruct dep; cbn [coins_empty]; intros Ea Es.
+  - inv_ok Ea. inv_ok Es. subst. cbn [coin_amt]. destruct (a =? owner); lia.
+  - apply one_base_coin_amt in Ea. destruct Ea as [Ea _].
+    destruct (pay_deposit_bal _ _ _ _ _ a Es). auto.
+  - apply one_base_coin_amt in Ea. destruct Ea as [Ea _].
+    destruct (pay_deposit_bal _ _ _ _ _ a Es). auto.
+Qed.
+
+(* the most a message can take from its signer: the deposit it adds, or the amount it sends *)
+Definition max_debit (o : Op) : Z :=
+  match o with
+  | OBind _ _ dep _ _ _ _ => coin_amt dep
+  | OUpdate _ _ dep _ _ _ _ => coin_amt dep
+  | OEnable _ _ dep _ _ => coin_amt dep
+  | OTransfer _ _ amt => amt
+  | _ => 0
+  end.
+
+Definition debit_of (o : Op) (a : Z) : Z :=
+  match signer o with
+  | Some u => if a =? u then max_debit o else 0
+  | None => 0
+  end.
+
+(* every message: each ordinary account keeps at least its balance minus what the message
+   may take from it; needs no invariant *)
+Lemma msg_floor cfg s o s' :
+  handle cfg s o = Ok s' -> (forall dt, o <> OEndBlock dt) ->
+  0 <= max_debit o /\ forall a, bal s (User a) - debit_of o a <= bal s' (User a).
+Proof.
+  intros H Hne.
+  assert (Hsame : bank s' = bank s -> max_debit o = 0 ->
+                  0 <= max_debit o /\ forall a, bal s (User a) - debit_of o a <= bal s' (User a)).
+  { intros E Em. split; [lia|]. intros a. unfold debit_of. rewrite Em.
+    pose proof (ub_bank _ _ E a). destruct (signer o); [destruct (a =? z)|]; lia. }
+  assert (Hub : ub s s' -> max_debit o = 0 ->
+                  0 <= max_debit o /\ forall a, bal s (User a) - debit_of o a <= bal s' (User a)).
+  { intros E Em. split; [lia|]. intros a. unfold debit_of. rewrite Em.
+    pose proof (E a). destruct (signer o); [destruct (a =? z)|]; lia. }
+  destruct o; cbn [handle] in H; try (exfalso; eapply Hne; reflexivity).
+  - (* define *) apply Hsame; [|reflexivity].
+    unfold h_define in H. inv_ok H. destruct (get svc (defs s)); inv_ok H. now subst.
+  - (* bind *) unfold h_bind in H. inv_ok H. sproj.
+    match goal with Hp : pay_deposit _ _ _ _ = Ok ?x |- _ => rename Hp into Hpay; rename x into sp end.
+    match goal with Ho : one_base_coin _ = Ok _ |- _ => apply one_base_coin_amt in Ho; destruct Ho as [Eamt Hpos] end.
+    assert (Eb : bank s' = bank sp) by (destruct (get prov (owner_of sp)); inv_ok H; subst s'; reflexivity).
+    cbn [max_debit]. split; [lia|]. intros x. unfold debit_of. cbn [signer max_debit].
+    destruct (pay_deposit_bal _ _ _ _ _ x Hpay) as [_ Hx].
+    unfold bal at 2. rewrite Eb. fold (bal sp (User x)). rewrite Eamt. exact Hx.
+  - (* update *) unfold h_update in H. inv_ok H.
+    rename a into b, a0 into amt, a1 into newp, a3 into s1.
+    rename Ha0 into Hamt, Ha3 into Hpay.
+    assert (Eb : bank s' = bank s1).
+    { destruct (negb (qos =? 0) || negb (coins_empty dep) || match pr with Some _ => true | None => false end);
+        [destruct newp as [[raw p]|]|]; inv_ok H; subst s'; reflexivity. }
+    cbn [max_debit]. unfold debit_of. cbn [signer max_debit].
+    split.
+    + destruct (opt_pay_bal _ _ _ _ _ _ 0 Hamt Hpay) as (E1 & E2 & _). lia.
+    + intros x. destruct (opt_pay_bal _ _ _ _ _ _ x Hamt Hpay) as (E1 & E2 & Hx).
+      unfold bal at 2. rewrite Eb. fold (bal s1 (User x)). rewrite <- E1. exact Hx.
+  - (* disable *) apply Hsame; [|reflexivity]. unfold h_disable in H. inv_ok H. now subst.
+  - (* enable *) unfold h_enable in H. inv_ok H.
+    rename a into b, a0 into amt, a1 into md, a2 into s1.
+    rename Ha0 into Hamt, Ha2 into Hpay.
+    assert (Eb : bank s' = bank s1) by (subst s'; reflexivity).
+    cbn [max_debit]. unfold debit_of. cbn [signer max_debit].
+    split.
+    + destruct (opt_pay_bal _ _ _ _ _ _ 0 Hamt Hpay) as (E1 & E2 & _). lia.
+    + intros x. destruct (opt_pay_bal _ _ _ _ _ _ x Hamt Hpay) as (E1 & E2 & Hx).
+      unfold bal at 2. rewrite Eb. fold (bal s1 (User x)). rewrite <- E1. exact Hx.
+  - (* refund deposit *) apply Hub; [|reflexivity].
+    unfold h_refund_deposit in H. inv_ok H. subst s'.
+    eapply ub_trans; [eapply ub_transfer_module; [eassumption|discriminate]|apply ub_bank; reflexivity].
+  - (* set withdraw *) apply Hsame; [|reflexivity]. unfold h_set_withdraw in H. inv_ok H. now subst.
+  - (* call *) apply Hsame; [|reflexivity]. unfold h_call, create_context in H. inv_ok H. now subst.
+  - (* modcall *) apply Hsame; [|reflexivity]. unfold create_context in H. inv_ok H. now subst.
+  - (* respond *) apply Hub; [|reflexivity]. apply respond_inv in H.
+    destruct H as (q & rc0 & s1 & rc & _ & Hq & Hrc0 & _ & _ & Hset & Hrc & ->).
+    assert (H1 : ub s s1).
+    { destruct Hset as [[_ (sa & Es & Er)]|[_ Ea]].
+      - eapply ub_trans; [eapply ub_slash; eauto|eapply ub_refund_fee; eauto].
+      - eapply ub_add_earned_fee; eauto. }
+    eapply ub_trans; [exact H1|]. apply ub_core.
+    unfold resp_finish, resp_mid.
+    destruct (c_bresp (setc_bresp rc (c_bresp rc + 1)) =? c_breq (setc_bresp rc (c_bresp rc + 1)));
+      autorewrite with core; reflexivity.
+  - (* pause *) apply Hsame; [|reflexivity]. unfold h_pause, authorized in H. inv_ok H. now subst.
+  - (* start *) apply Hsame; [|reflexivity]. unfold h_start, authorized in H. inv_ok H.
+    match type of H with (if ?b then _ else _) = _ => destruct b end; inv_ok H; now subst.
+  - (* kill *) apply Hsame; [|reflexivity]. unfold h_kill, authorized in H. inv_ok H. now subst.
+  - (* update ctx *) apply Hsame; [|reflexivity]. unfold h_update_ctx, authorized in H. inv_ok H. now subst.
+  - (* withdraw *) apply Hub; [|reflexivity]. unfold h_withdraw in H. inv_ok H.
+    destruct (prov =? 0).
+    + inv_ok H. subst s'.
+      match goal with Ht : transfer _ _ _ ?m = Some ?x |- _ =>
+        apply ub_trans with (s2 := x); [|apply ub_bank; reflexivity];
+        apply ub_trans with (s2 := m); [|eapply ub_transfer_module; [exact Ht|discriminate]] end.
+      apply ub_bank. reflexivity.
+    + inv_ok H. subst s'.
+      match goal with Ht : transfer _ _ _ ?m = Some ?x |- _ =>
+        apply ub_trans with (s2 := x); [|apply ub_bank; reflexivity];
+        apply ub_trans with (s2 := m); [|eapply ub_transfer_module; [exact Ht|discriminate]] end.
+      apply ub_bank.
+      destruct (get0 prov (earned s) =? get0 owner (own_earned s)); [|destruct (_ <? 0)]; inv_ok Ha; subst;
+        reflexivity.
+  - (* transfer *) unfold h_transfer in H. inv_ok H. b2p.
+    cbn [max_debit]. split; [lia|]. intros x. unfold debit_of. cbn [signer max_debit].
+    eapply transfer_user_bal; eauto.
+Qed.
+
+(* no message lowers the balance of an ordinary account other than its signer's *)
+Theorem C05_only_signer_debited cfg s o s' :
+  (forall dt, o <> OEndBlock dt) -> handle cfg s o = Ok s' ->
+  forall a, Some a <> signer o -> bal s (User a) <= bal s' (User a).
+Proof.
+  intros Hne H a Ha. destruct (msg_floor _ _ _ _ H Hne) as [_ Hf]. specialize (Hf a).
+  unfold debit_of in Hf. destruct (signer o) as [u|]; [|lia].
+  destruct (Z.eqb_spec a u) as [->|_]; [congruence|lia].
+Qed.
+
+(* the signer itself loses at most the deposit it adds (bind / update / enable) or the
+   amount it sends (transfer), and nothing with any other message *)
+Theorem C05_signer_debit_bound cfg s o s' a :
+  (forall dt, o <> OEndBlock dt) -> handle cfg s o = Ok s' -> signer o = Some a ->
+  0 <= max_debit o /\ bal s (User a) - max_debit o <= bal s' (User a).
+Proof.
+  intros Hne H Hs. destruct (msg_floor _ _ _ _ H Hne) as [H0 Hf]. split; [exact H0|].
+  specialize (Hf a). unfold debit_of in Hf. rewrite Hs, Z.eqb_refl in Hf. exact Hf.
+Qed.
+
+(* messages other than bind / update / enable / transfer lower no ordinary account at all *)
+Corollary C05_no_debit cfg s o s' :
+  (forall dt, o <> OEndBlock dt) -> handle cfg s o = Ok s' -> max_debit o = 0 ->
+  forall a, bal s (User a) <= bal s' (User a).
+Proof.
+  intros Hne H Hm a. destruct (msg_floor _ _ _ _ H Hne) as [_ Hf]. specialize (Hf a).
+  unfold debit_of in Hf. rewrite Hm in Hf. destruct (signer o); [destruct (a =? z)|]; lia.
+Qed.
+
+(* a malformed answer: the provider's binding is slashed out of the Deposit module account,
+   the consumer gets the fee back; a withdrawal credits the withdraw address; a bind takes
+   the deposit from the owner only *)
+Example C05_only_signer_debited_ex :
+  Reach ax_cfg ax_s
+  /\ (exists s', handle ax_cfg ax_s (ORespond (ax_rid 1) 8 0 3 false true) = Ok s'
+        /\ bal s' (User 50) = bal ax_s (User 50) + 100 /\ bal s' (User 42) = bal ax_s (User 42)
+        /\ bal s' Deposit = bal ax_s Deposit - 200 /\ bal s' Escrow = bal ax_s Escrow - 100)
+  /\ (exists s', handle ax_cfg ax_s (OBind 1 10 (CBase 150000) (Some ax_raw) 10 43 true) = Ok s'
+        /\ bal s' (User 43) = bal ax_s (User 43) - 150000
+        /\ max_debit (OBind 1 10 (CBase 150000) (Some ax_raw) 10 43 true) = 150000)
+  /\ (exists s', handle ax_cfg ax_s (OTransfer 50 51 7) = Ok s'
+        /\ bal s' (User 50) = bal ax_s (User 50) - 7 /\ bal s' (User 51) = bal ax_s (User 51) + 7).
+Proof.
+  split; [exact ax_reach|].
+  split; [eexists; split; [vm_compute; reflexivity|vm_compute; repeat split; reflexivity]|].
+  split; [eexists; split; [vm_compute; reflexivity|vm_compute; repeat split; reflexivity]|].
+  eexists; split; [vm_compute; reflexivity|vm_compute; repeat split; reflexivity].
+Qed.
